@@ -97,7 +97,7 @@ func (t *WeightedMerkleTrie) VerifyBlockProof(block uint64, proof []byte) (hash,
 		return nil, nil, errors.New("proof is empty")
 	}
 	ind := 0
-	t.root, value, err = verifyProof(persistTrie, block, &ind)
+	t.root, value, err = verifyProof(persistTrie, block, &ind, 0)
 	if err != nil {
 		return nil, nil, err
 	}
@@ -105,7 +105,9 @@ func (t *WeightedMerkleTrie) VerifyBlockProof(block uint64, proof []byte) (hash,
 	return
 }
 
-func verifyProof(persistTrie *PersistTrie, block uint64, ind *int) (Node, []byte, error) {
+// verifyProof rebuilds the path described by the proof; depth is the number of key
+// nibbles consumed above the current node.
+func verifyProof(persistTrie *PersistTrie, block uint64, ind *int, depth int) (Node, []byte, error) {
 	if *ind >= len(persistTrie.Pairs) {
 		return nil, nil, errors.New("index out of bounds")
 	}
@@ -127,7 +129,7 @@ func verifyProof(persistTrie *PersistTrie, block uint64, ind *int) (Node, []byte
 			}
 			child := n.Children[i]
 			if block <= child.Weight() {
-				newNode, val, err := verifyProof(persistTrie, block, ind)
+				newNode, val, err := verifyProof(persistTrie, block, ind, depth+1)
 				if err != nil {
 					return nil, nil, err
 				}
@@ -143,7 +145,7 @@ func verifyProof(persistTrie *PersistTrie, block uint64, ind *int) (Node, []byte
 		if block > n.Weight() {
 			return nil, nil, ErrWeightNotInRange
 		}
-		newNode, val, err := verifyProof(persistTrie, block, ind)
+		newNode, val, err := verifyProof(persistTrie, block, ind, depth+len(n.key))
 		if err != nil {
 			return nil, nil, err
 		}
@@ -152,6 +154,13 @@ func verifyProof(persistTrie *PersistTrie, block uint64, ind *int) (Node, []byte
 		n.CalcHash()
 		return n, val, nil
 	case *valueNode:
+		// The hashes of the node kinds are not domain separated: the bytes a branch or
+		// a short node hashes can be presented as a value node with the same hash. A
+		// genuine value sits at the end of a full-length key path, the bytes of an
+		// inner node never do.
+		if depth != keyLength*2 {
+			return nil, nil, errors.New("invalid proof: value node is not at the end of a key path")
+		}
 		if block > n.Weight() {
 			return nil, nil, ErrWeightNotInRange
 		}
